@@ -1,7 +1,226 @@
-/- Driver glue for C12: case lines `c12.<sub> <args…> | <impl…>` (stub until the property is built) -/
-import FileD.Prelude.Tok
-namespace FileD.DrvC12
+/-
+  Driver glue for C12. Case lines (see harness/cmd/fdharness/c12.go for the implementation side):
 
-def handle (_cmd : String) (_args _impl : List String) : Option (String × String) := none
+    c12.cri   <hex>                                   | ok <time> <stream> <partial> <log> B <buf>
+    c12.pg    <hex>                                   | ok <time> <pid> <pmn> <client> <db> <user> <log> B <buf> J <tree>
+    c12.nginx <custom> <n> (<keyhex> <0|1>)… <hex>    | ok <time> <level> <pid> <tid> <cid> <msg> <n> (<k> <v>)… B <buf> J <tree>
+    c12.s3164 <facStr> <sevStr> <hex>                 | ok <pri> <fac> <sev> <ts> <host> <app> <procid> <msg> B <buf> J <tree>
+    c12.s5424 <facStr> <sevStr> <hex>                 | ok <pri> <fac> <sev> <ver> <ts> <host> <app> <procid> <msgid> <msg>
+                                                           <nsd> (<id> <np> (<k> <v>)…)… B <buf> J <tree>
+    c12.csv   <delim> <mode> <prefix> <nc> <col>… <trimmed> <hex>
+                                                      | ok <n> <field>… B <buf> J <tree>
+    c12.raw   <hex>                                   | ok <message> | refused
+    c12.jcut  <valid> <n> (<path> <limit> <found> <index> <strlen> <rawlen>)… <hex>   | <hex result>
+    c12.json  <tree>                                  | ok <tree> | err
+    c12.pb    <hex>                                   | ok | err            (library: echoed, only "no panic" is judged)
+  every scanner prints `err B <buf> J err` when the decoder returned its error and `panic:<kind>` on a panic.
+  `J` is the event DecodeToJson builds (object, fields stably sorted by key).
+-/
+import FileD.Prelude.Tok
+import FileD.Model.Dec.CRI
+import FileD.Model.Dec.Raw
+import FileD.Model.Dec.Postgres
+import FileD.Model.Dec.Nginx
+import FileD.Model.Dec.Syslog3164
+import FileD.Model.Dec.Syslog5424
+import FileD.Model.Dec.CSV
+import FileD.Model.Dec.JsonCut
+import FileD.Model.Dec.Json
+import FileD.Spec.C12
+namespace FileD.DrvC12
+open FileD Tok FileD.Dec
+
+def hx (b : Bytes) : String := Hex.enc b
+
+/-- insert keeping earlier elements with an equal key in front (stable) -/
+def insertStable (kv : Bytes × JTree) : List (Bytes × JTree) → List (Bytes × JTree)
+  | [] => [kv]
+  | x :: xs => if !bytesLt x.1 kv.1 then kv :: x :: xs else x :: insertStable kv xs
+
+def sortFields (m : List (Bytes × JTree)) : List (Bytes × JTree) := m.foldr insertStable []
+
+/-- insane-json `AddFieldNoAlloc` returns the existing field when the name is already present:
+    adding fields is insert-or-replace; the view is sorted by key -/
+def jview (fields : List (Bytes × JTree)) : String :=
+  JTree.enc (.obj (sortFields (fields.foldl (fun m kv => mapSet m kv.1 kv.2) [])))
+
+def s (x : String) : Bytes := x.toUTF8.toList
+
+def strField (k : String) (v : Bytes) : Bytes × JTree := (s k, .str v)
+def optField (k : String) (v : Bytes) : List (Bytes × JTree) := if v.length > 0 then [strField k v] else []
+
+/-- print a scanner result: `f` renders (row tokens, json view) -/
+def scan {α} (hasJ : Bool) (r : GoM (Option α × Bytes)) (f : α → String × Option String) : String :=
+  match r with
+  | .error p => panicTok p
+  | .ok (none, buf) => if hasJ then unwords ["err", "B", hx buf, "J", "err"] else unwords ["err", "B", hx buf]
+  | .ok (some row, buf) =>
+    let (toks, j) := f row
+    match j with
+    | some j => unwords ["ok", toks, "B", hx buf, "J", j]
+    | none => unwords ["ok", toks, "B", hx buf]
+
+def withBuf {α} (buf : Bytes) (r : GoM (Option α)) : GoM (Option α × Bytes) := r.map (fun x => (x, buf))
+
+/-- the tokens after the first `B` -/
+def afterB : List String → Option String
+  | [] => none
+  | "B" :: h :: _ => some h
+  | _ :: ts => afterB ts
+
+def scannerP (isCSV : Bool) (input : Bytes) (impl : List String) : String :=
+  if impl.any (fun t => t.startsWith "panic" || t == "frame-violated") then "fail" else
+  match afterB impl with
+  | some h =>
+    match Hex.dec? h with
+    | some buf => if SpecC12.frameOk isCSV input buf then "ok" else "fail"
+    | none => "bad-impl"
+  | none => "bad-impl"
+
+def pgJ (r : Postgres.Row) : String :=
+  jview [strField "time" r.time, strField "pid" r.pid, strField "pid_message_number" r.pidMessageNumber,
+         strField "client" r.client, strField "db" r.db, strField "user" r.user, strField "log" r.log]
+
+def kvToks (m : List (Bytes × Bytes)) : String :=
+  unwords (toString m.length :: (sortMap m).flatMap (fun kv => [hx kv.1, hx kv.2]))
+
+def nginxJ (r : Nginx.Row) : String :=
+  jview ([strField "time" r.time, strField "level" r.level, strField "pid" r.pid, strField "tid" r.tid]
+         ++ optField "cid" r.cid ++ optField "message" r.message
+         ++ (sortMap r.custom).map (fun kv => (kv.1, JTree.str kv.2)))
+
+def syslogJ (pri fac sev ver ts host app procid msgid msg : Bytes) (sd : Syslog5424.SD) : String :=
+  jview ([strField "priority" pri, strField "facility" fac, strField "severity" sev]
+         ++ optField "proto_version" ver ++ optField "timestamp" ts ++ optField "hostname" host
+         ++ optField "app_name" app ++ optField "process_id" procid ++ optField "message_id" msgid
+         ++ optField "message" msg
+         ++ ((sortMap sd).filter (fun e => e.2.length > 0)).map
+              (fun e => (e.1, JTree.obj ((sortMap e.2).map (fun kv => (kv.1, JTree.str kv.2))))))
+
+def sdToks (sd : Syslog5424.SD) : String :=
+  unwords (toString sd.length :: (sortMap sd).flatMap (fun e => [hx e.1, kvToks e.2]))
+
+def parsePairs : Nat → List String → Option (List (Bytes × Bool) × List String)
+  | 0, ts => some ([], ts)
+  | n+1, k :: b :: ts => do
+    let key ← bytes? k
+    let v ← bool? b
+    let (rest, r) ← parsePairs n ts
+    pure ((key, v) :: rest, r)
+  | _, _ => none
+
+def parseProbes : Nat → List String → Option (List JsonCut.Probe × List String)
+  | 0, ts => some ([], ts)
+  | n+1, _path :: lim :: fnd :: ix :: sl :: rl :: ts => do
+    let limit ← int? lim
+    let found ← bool? fnd
+    let index ← int? ix
+    let strLen ← int? sl
+    let rawLen ← int? rl
+    let (rest, r) ← parseProbes n ts
+    pure (⟨limit, found, index, strLen, rawLen⟩ :: rest, r)
+  | _, _ => none
+
+/-- CSV: `CheckInvalidLine` + `GenerateColumnName` -/
+def csvJ (cont : Bool) (pre : Bytes) (cols : List Bytes) (row : List Bytes) : String :=
+  if cols.length ≠ 0 ∧ row.length ≠ cols.length ∧ !cont then "err" else
+  let rec names (i : Nat) : List Bytes → List (Bytes × JTree)
+    | [] => []
+    | f :: fs => ((match cols[i]? with | some c => c | none => pre ++ itoa i), JTree.str f) :: names (i + 1) fs
+  jview (names 0 row)
+
+def handle (cmd : String) (args impl : List String) : Option (String × String) :=
+  match cmd, args with
+  | "c12.cri", [h] => do
+    let data ← bytes? h
+    let m := scan false (withBuf data (CRI.decode data)) (fun r =>
+      (unwords [hx r.time, hx r.stream, ofBool r.isPartial, hx r.log], none))
+    pure (m, scannerP false data impl)
+  | "c12.pg", [h] => do
+    let data ← bytes? h
+    let m := scan true (Postgres.decode data) (fun r =>
+      (unwords [hx r.time, hx r.pid, hx r.pidMessageNumber, hx r.client, hx r.db, hx r.user, hx r.log], some (pgJ r)))
+    pure (m, scannerP false data impl)
+  | "c12.nginx", c :: n :: rest => do
+    let custom ← bool? c
+    let k ← nat? n
+    let (tbl, r) ← parsePairs k rest
+    match r with
+    | [h] =>
+      let data ← bytes? h
+      let letters : Bytes → Bool := fun key => match tbl.find? (·.1 == key) with | some e => e.2 | none => false
+      let m := scan true (withBuf data (Nginx.decode custom letters data)) (fun r =>
+        (unwords [hx r.time, hx r.level, hx r.pid, hx r.tid, hx r.cid, hx r.message, kvToks r.custom], some (nginxJ r)))
+      pure (m, scannerP false data impl)
+    | _ => none
+  | "c12.s3164", [f, sv, h] => do
+    let fs ← bool? f
+    let ss ← bool? sv
+    let data ← bytes? h
+    let m := scan true (withBuf data (Syslog3164.decode fs ss data)) (fun r =>
+      (unwords [hx r.priority, hx r.facility, hx r.severity, hx r.timestamp, hx r.hostname, hx r.appName,
+                hx r.procID, hx r.message],
+       some (syslogJ r.priority r.facility r.severity [] r.timestamp r.hostname r.appName r.procID [] r.message [])))
+    pure (m, scannerP false data impl)
+  | "c12.s5424", [f, sv, h] => do
+    let fs ← bool? f
+    let ss ← bool? sv
+    let data ← bytes? h
+    let m := scan true (withBuf data (Syslog5424.decode fs ss data)) (fun r =>
+      (unwords [hx r.priority, hx r.facility, hx r.severity, hx r.protoVersion, hx r.timestamp, hx r.hostname,
+                hx r.appName, hx r.procID, hx r.msgID, hx r.message, sdToks r.sd],
+       some (syslogJ r.priority r.facility r.severity r.protoVersion r.timestamp r.hostname r.appName r.procID
+               r.msgID r.message r.sd)))
+    pure (m, scannerP false data impl)
+  | "c12.csv", d :: md :: pre :: rest => do
+    let delim ← nat? d
+    let cont ← bool? md
+    let prefix_ ← bytes? pre
+    let (cols, r) ← listOf bytes? rest
+    match r with
+    | [t, h] =>
+      let trimmed ← bytes? t
+      let data ← bytes? h
+      let m := scan true (CSV.decode (UInt8.ofNat delim) (fun _ => trimmed) data) (fun row =>
+        (encList hx row, some (csvJ cont prefix_ cols row)))
+      pure (m, scannerP true data impl)
+    | _ => none
+  | "c12.raw", [h] => do
+    let data ← bytes? h
+    let m := match Raw.decode data with
+      | .error p => panicTok p
+      | .ok none => "refused"
+      | .ok (some msg) => unwords ["ok", hx msg]
+    pure (m, if impl.any (·.startsWith "panic") then "fail" else "ok")
+  | "c12.jcut", v :: n :: rest => do
+    let valid ← bool? v
+    let k ← nat? n
+    let (probes, r) ← parseProbes k rest
+    match r with
+    | [h] =>
+      let data ← bytes? h
+      let m := match JsonCut.cutFields valid probes data with
+        | .error p => panicTok p
+        | .ok res => hx res
+      let p := match impl with
+        | [ih] => match Hex.dec? ih with
+                  | some res => if SpecC12.cutOk valid data res then "ok" else "fail"
+                  | none => if ih.startsWith "panic" || ih == "frame-violated" then "fail" else "bad-impl"
+        | _ => "bad-impl"
+      pure (m, p)
+    | _ => none
+  | "c12.json", ts => do
+    let (t, r) ← JTree.parse? ts
+    if r ≠ [] then none
+    let m := match Json.decode (Json.encode t) with
+      | some t' => unwords ["ok", JTree.enc t']
+      | none => "err"
+    -- oracle: what insane-json read back is the tree that was written
+    let p := if impl = "ok" :: JTree.toToks t then "ok" else "fail"
+    pure (m, p)
+  | "c12.pb", _ =>
+    -- protobuf decoder: library code (protocompile / dynamicpb), compared for "no panic" only
+    pure (unwords impl, if impl.any (·.startsWith "panic") then "fail" else "ok")
+  | _, _ => none
 
 end FileD.DrvC12
